@@ -73,8 +73,9 @@ PointFails(e) ==
 ArgMaxFails(pts, t) ==
   LET Rt == pts[t].R
       St == CharScale(pts[t - 1].z, pts[t].z, pts[t].d, rM, sZ) IN
-  {"ArgMax" : i \in {k \in 2..Len(pts) :
-       k # t /\ QLt(QAdd(Rt, QTol(QAdd(St, CharScale(pts[k - 1].z, pts[k].z, pts[k].d, rM, sZ)))), pts[k].R)}}
+  \* (the rounding allowance is evaluated only for the intervals whose characteristic exceeds the chosen one at all)
+  {"ArgMax" : i \in {k \in {j \in 2..Len(pts) : j # t /\ QLt(Rt, pts[j].R)} :
+       QLt(QAdd(Rt, QTol(QAdd(St, CharScale(pts[k - 1].z, pts[k].z, pts[k].d, rM, sZ)))), pts[k].R)}}
 
 (* the code's rounding error on x is about 2^-53 absolute plus 2^-52 N relative on the shift term *)
 PointRuleFailsW(want, mid, x) ==
@@ -135,7 +136,7 @@ Hears(kind) == "cbs" \in DOMAIN scfg /\ \E i \in 1..Len(scfg.cbs) : scfg.cbs[i] 
 ---------------------------------------------------------------------------
 Init ==
   /\ tpos = 1 /\ tfailed = {} /\ tnfail = 0 /\ tdone = FALSE
-  /\ tstats = [runs |-> 0, trials |-> 0, argmax |-> 0, ties |-> 0, recalcs |-> 0]
+  /\ tstats = [runs |-> 0, trials |-> 0, argmax |-> 0, ties |-> 0, recalcs |-> 0, cert |-> 0, accstops |-> 0]
   /\ scfg = [n |-> 0] /\ spts = <<>> /\ sM = Q1 /\ sZ = None /\ sminD = "inf" /\ strials = 0
   /\ spc = "idle" /\ scall0 = 0 /\ sfault = FALSE /\ slocal = 0
   /\ sn = Sn0
@@ -227,6 +228,22 @@ SnapAll(snp) ==
   IN core \cup EndsFails(snp)
      \cup (IF "error" \notin DOMAIN snp /\ snp.items # <<>> /\ Len(snp.items) # Len(spts) THEN {"SnapCount"} ELSE {})
 
+(* C01: certified eps-optimality.  scfg.lip = Lipschitz constant of the objective on the box normalised to unit side,     *)
+(* scfg.fmin = its true global minimum over the box (both known analytically for the objectives of these scenarios).     *)
+(* The premise is tested with an UPPER bound of K_N and the conclusion with an upper bound of the grid term, so rounding  *)
+(* can only make the clause weaker.                                                                                      *)
+KHi == IF N = 1 THEN Q2 ELSE QMul(QDivR("8", QRootLo(Q2, N)), QRootHi(QInt(N + 3), 2))
+HasLip == "lip" \in DOMAIN scfg /\ scfg.lip # "none"
+AccStop == sminD # "inf" /\ strials >= 2 /\ (IF N = 1 THEN QLt(sminD, scfg.eps) ELSE RelBelow(sminD, scfg.eps))
+Premise == QLeq(QMul(KHi, scfg.lip), rM)
+GridTerm == IF N = 1 THEN Q0
+            ELSE QMul(QMul(scfg.lip, QPow2(0 - scfg.m)), QAdd(QRootHi(QInt(N + 3), 2), QMul(QHalf, QRootHi(QInt(N), 2))))
+CertBound == QAdd(QMul(QMul(QHalf, rM), scfg.eps), GridTerm)
+CertFails(e) ==
+  IF e.name = "solve" /\ ~sfault /\ HasLip /\ AccStop /\ Premise /\ e.sol.has
+  THEN (IF QLt(QSub(e.sol.bv, scfg.fmin), CertBound) THEN {} ELSE {"Certified"})
+  ELSE {}
+
 (* C13, at the return of a public call: the right number of notifications was delivered during the call *)
 SolKey(sol) == <<sol.ntr, sol.nloc, sol.acc, sol.by, sol.bv>>
 NotifRetFails(e) ==
@@ -250,11 +267,13 @@ EvRet(e) ==
            \cup (IF solveok /\ ~StopMaybe THEN {"StopEarly"} ELSE {})
            \cup (IF solveok /\ e.printed_exc THEN {"NoIntExc"} ELSE {})
            \cup (IF e.name = "solve" /\ e.raised = "none" /\ ~e.ret_is_results THEN {"SolveReturnsResults"} ELSE {})
-           \cup NotifRetFails(e)
+           \cup NotifRetFails(e) \cup CertFails(e)
   IN /\ Note(e, f)
      /\ spc' = "idle"
      /\ sn' = [sn EXCEPT !.last = e.sol]
-     /\ UNCHANGED <<scfg, spts, sM, sZ, sminD, strials, scall0, sfault, slocal, tstats>>
+     /\ tstats' = [tstats EXCEPT !.cert = @ + (IF e.name = "solve" /\ ~sfault /\ HasLip /\ AccStop /\ Premise THEN 1 ELSE 0),
+                                 !.accstops = @ + (IF e.name = "solve" /\ ~sfault /\ HasLip /\ AccStop THEN 1 ELSE 0)]
+     /\ UNCHANGED <<scfg, spts, sM, sZ, sminD, strials, scall0, sfault, slocal>>
 
 EvCb(e) ==
   /\ Note(e, IF e.kind = "enditer"
